@@ -498,7 +498,7 @@ Quiescent ==
           => vnow - conn[c].lastpkt <= 4 * conn[c].ka * 1000
 
 Ignored == Ev.op \in {"log.consume", "log.get", "writer.done", "publish.done", "gossip.out", "gossip.deliver", "conn.deadline", "rpc.call",
-                      "ack.ack.call", "ack.ack.ret", "peer.leave.notified", "purge.waited"}
+                      "ack.ack.call", "ack.ack.ret", "peer.leave.notified", "purge.waited", "race.parked", "race.released", "race.note"}
 
 \* C11/C13 again, at the moment it shows: a client packet is accepted by a connection whose session has been silent for more
 \* than four keep-alives - the broker is still serving a session it should have ended long ago (same proviso as in Quiescent)
